@@ -31,6 +31,7 @@ type GCase struct {
 	Nodes []GNode `json:"nodes"`
 	Root  int     `json:"root"` // -1: the injector's result does not touch the graph
 	Sub   bool    `json:"sub"`  // graph items live in a nested named set
+	Parts int     `json:"parts,omitempty"` // >=2: items are spread over that many named sets which are only united by a set listing nothing but sets
 	Tag   string  `json:"tag"`
 	Alone bool    `json:"alone,omitempty"` // run in its own invocation under the time bound
 }
@@ -182,6 +183,38 @@ func (g *GCase) render(pkg string) map[string]string {
 		res = g.ty(g.Root)
 	}
 	top := items
+	if g.Parts >= 2 {
+		// part of node i: bindings must sit with the provider of their concrete type
+		partOf := func(i int) int {
+			for hops := 0; hops < n && g.Nodes[i].Kind == "bind"; hops++ {
+				i = g.Nodes[i].Out[0]
+			}
+			return i % g.Parts
+		}
+		parts := make([][]string, g.Parts)
+		idx := 0
+		for i, nd := range g.Nodes {
+			_ = nd
+			parts[partOf(i)] = append(parts[partOf(i)], items[idx])
+			idx++
+		}
+		top = nil
+		for pi, ps := range parts {
+			if len(ps) == 0 {
+				fmt.Fprintf(&d, "var Part%d = wire.NewSet()\n\n", pi)
+			} else {
+				fmt.Fprintf(&d, "var Part%d = wire.NewSet(\n\t%s,\n)\n\n", pi, strings.Join(ps, ",\n\t"))
+			}
+			top = append(top, fmt.Sprintf("Part%d", pi))
+		}
+		if g.Root < 0 {
+			fmt.Fprintf(&d, "type R struct{}\n\nfunc ProvideR() *R { return nil }\n\nvar PartR = wire.NewSet(ProvideR)\n\n")
+			top = append(top, "PartR")
+		}
+		fmt.Fprintf(&d, "var Set = wire.NewSet(\n\t%s,\n)\n", strings.Join(top, ",\n\t"))
+		inj := fmt.Sprintf("//go:build wireinject\n\npackage %s\n\nimport \"github.com/google/wire\"\n\nfunc Inject() %s {\n\twire.Build(Set)\n\treturn nil\n}\n", pkg, res)
+		return map[string]string{"defs.go": d.String(), "inject.go": inj}
+	}
 	if g.Sub {
 		fmt.Fprintf(&d, "var Sub = wire.NewSet(\n\t%s,\n)\n\n", strings.Join(items, ",\n\t"))
 		top = []string{"Sub"}
@@ -333,7 +366,29 @@ func genKinds(adj [][]int) *rapid.Generator[[]string] {
 func genGraph() *rapid.Generator[*GCase] {
 	return rapid.Custom(func(t *rapid.T) *GCase {
 		n := rapid.IntRange(4, 40).Draw(t, "n")
-		mode := rapid.SampledFrom([]string{"dag", "dag", "backedge", "backedge", "backedge", "random"}).Draw(t, "mode")
+		mode := rapid.SampledFrom([]string{"dag", "dag", "backedge", "backedge", "backedge", "random", "bindcycle", "bindcycle"}).Draw(t, "mode")
+		if mode == "bindcycle" {
+			// a consumer of an interface that is bound to a member of a cycle
+			m := rapid.IntRange(2, 4).Draw(t, "cyclelen")
+			g := &GCase{Tag: "random-bindcycle"}
+			// node 0: consumer; node 1: interface; nodes 2..m+1: the cycle; then optional tail
+			g.Nodes = append(g.Nodes, GNode{Kind: "func", Out: []int{1}}, GNode{Kind: "bind", Out: []int{2 + rapid.IntRange(0, m-1).Draw(t, "boundto")}})
+			for i := 0; i < m; i++ {
+				g.Nodes = append(g.Nodes, GNode{Kind: rapid.SampledFrom([]string{"func", "struct"}).Draw(t, "ck"), Out: []int{2 + (i+1)%m}})
+			}
+			if rapid.Bool().Draw(t, "swap") {
+				// move the consumer to the end so that it sorts after the cycle
+				last := len(g.Nodes)
+				g.Nodes = append(g.Nodes, GNode{Kind: "func", Out: []int{1}})
+				g.Nodes[0] = GNode{Kind: "func"}
+				_ = last
+			}
+			g.Root = rapid.SampledFrom([]int{-1, -1, 0}).Draw(t, "root")
+			g.Sub = rapid.Bool().Draw(t, "sub")
+			g.Parts = rapid.SampledFrom([]int{0, 0, 2, 3}).Draw(t, "parts")
+			g.normalize()
+			return g
+		}
 		adj := make([][]int, n)
 		for i := 0; i < n; i++ {
 			deg := rapid.IntRange(0, 3).Draw(t, "deg")
@@ -373,6 +428,7 @@ func genGraph() *rapid.Generator[*GCase] {
 		}
 		g.Root = rapid.SampledFrom([]int{-1, 0, 0}).Draw(t, "root")
 		g.Sub = rapid.Bool().Draw(t, "sub")
+		g.Parts = rapid.SampledFrom([]int{0, 0, 0, 2, 3, 4}).Draw(t, "parts")
 		g.normalize()
 		return g
 	})
@@ -397,6 +453,7 @@ func smallGraph(n, code int, seed uint64) *GCase {
 	}
 	g.Root = []int{-1, 0}[(ex>>8)&1]
 	g.Sub = (ex>>9)&1 == 1
+	g.Parts = []int{0, 0, 2, 3}[(ex>>10)&3]
 	g.normalize()
 	return g
 }
@@ -501,6 +558,12 @@ func c07Run(c *eng.Ctx) {
 			if code%c.NShards == c.Shard {
 				small = append(small, smallGraph(4, code, c.Seed))
 			}
+		}
+	} else {
+		// quick: a seed-dependent sample of the 65536 labelled digraphs on 4 nodes
+		codes := rapid.SliceOfN(rapid.IntRange(0, 65535), 400, 400).Example(int(c.Seed & 0x7fffffff))
+		for _, code := range codes {
+			small = append(small, smallGraph(4, code, c.Seed))
 		}
 	}
 	if !judgeAll(small) {
